@@ -143,29 +143,38 @@ macro_rules! vec_forms {
             let ab = a + b;
             let r = forms4!(ab, b, -, "vector-sub-forms", concat!(stringify!($V), " - ", stringify!($V)));
             assign!(ab, b, -=, r, "vector-sub_assign", concat!(stringify!($V), " -= "));
+            same!($V { $($f: ab.$f - b.$f),+ }, r, "vector-sub-value", "a - b per component");
             let r = forms2!(a, s, *, "vector-mul-forms", concat!(stringify!($V), " * scalar"));
             assign!(a, s, *=, r, "vector-mul_assign", concat!(stringify!($V), " *= "));
             same!($V { $($f: a.$f * s),+ }, r, "vector-mul-value", "a * s per component");
             let r = forms2!(a, k, /, "vector-div-forms", concat!(stringify!($V), " / scalar"));
             assign!(a, k, /=, r, "vector-div_assign", concat!(stringify!($V), " /= "));
+            same!($V { $($f: a.$f / k),+ }, r, "vector-div-value", "a / k per component");
             let r = forms2!(a, k, %, "vector-rem-forms", concat!(stringify!($V), " % scalar"));
             assign!(a, k, %=, r, "vector-rem_assign", concat!(stringify!($V), " %= "));
+            same!($V { $($f: a.$f % k),+ }, r, "vector-rem-value", "a % k per component");
             // scalar on the left (the `$V<S>: ...` impls exist per primitive; checked in scalar_left below)
             let _ = nz;
             // points
             let p = $P { $($f: S::g(d)),+ };
             let r = forms4!(p, b, +, "point-add-forms", concat!(stringify!($P), " + ", stringify!($V)));
             assign!(p, b, +=, r, "point-add_assign", concat!(stringify!($P), " += "));
+            same!($P { $($f: p.$f + b.$f),+ }, r, "point-add-value", "p + v per component");
             let pb = p + b;
             let r = forms4!(pb, b, -, "point-sub-vector-forms", concat!(stringify!($P), " - ", stringify!($V)));
             assign!(pb, b, -=, r, "point-sub_assign", concat!(stringify!($P), " -= "));
-            let _ = forms4!(pb, p, -, "point-sub-point-forms", concat!(stringify!($P), " - ", stringify!($P)));
+            same!($P { $($f: pb.$f - b.$f),+ }, r, "point-sub-vector-value", "p - v per component");
+            let r = forms4!(pb, p, -, "point-sub-point-forms", concat!(stringify!($P), " - ", stringify!($P)));
+            same!($V { $($f: pb.$f - p.$f),+ }, r, "point-sub-point-value", "q - p per component");
             let r = forms2!(p, s, *, "point-mul-forms", concat!(stringify!($P), " * scalar"));
             assign!(p, s, *=, r, "point-mul_assign", concat!(stringify!($P), " *= "));
+            same!($P { $($f: p.$f * s),+ }, r, "point-mul-value", "p * s per component");
             let r = forms2!(p, k, /, "point-div-forms", concat!(stringify!($P), " / scalar"));
             assign!(p, k, /=, r, "point-div_assign", concat!(stringify!($P), " /= "));
+            same!($P { $($f: p.$f / k),+ }, r, "point-div-value", "p / k per component");
             let r = forms2!(p, k, %, "point-rem-forms", concat!(stringify!($P), " % scalar"));
             assign!(p, k, %=, r, "point-rem_assign", concat!(stringify!($P), " %= "));
+            same!($P { $($f: p.$f % k),+ }, r, "point-rem-value", "p % k per component");
             // Sum over values and references equals the left fold from zero()
             let len = d.int(0, 8) as usize;
             let list: Vec<$V<S>> = (0..len).map(|_| $V { $($f: S::g(d)),+ }).collect();
@@ -196,8 +205,12 @@ fn forms_vec4<S: Prim + BaseNum>(d: &mut Draw) -> Outcome {
     assign!(a, s, *=, r, "vector-mul_assign", "Vector4 *=");
     let r = forms2!(a, k, /, "vector-div-forms", "Vector4 / scalar");
     assign!(a, k, /=, r, "vector-div_assign", "Vector4 /=");
+    same!(Vector4 { x: a.x / k, y: a.y / k, z: a.z / k, w: a.w / k }, r, "vector-div-value", "Vector4 / k per component");
     let r = forms2!(a, k, %, "vector-rem-forms", "Vector4 % scalar");
     assign!(a, k, %=, r, "vector-rem_assign", "Vector4 %=");
+    same!(Vector4 { x: a.x % k, y: a.y % k, z: a.z % k, w: a.w % k }, r, "vector-rem-value", "Vector4 % k per component");
+    same!(Vector4 { x: a.x * s, y: a.y * s, z: a.z * s, w: a.w * s }, a * s, "vector-mul-value", "Vector4 * s per component");
+    same!(Vector4 { x: a.x + b.x, y: a.y + b.y, z: a.z + b.z, w: a.w + b.w }, a + b, "vector-add-value", "Vector4 + Vector4 per component");
     let len = d.int(0, 8) as usize;
     let list: Vec<Vector4<S>> = (0..len).map(|_| g(d)).collect();
     let mut fold = Vector4::<S>::zero();
